@@ -124,6 +124,14 @@ impl<'t, 'a, 'g> Gen<'t, 'a, 'g> {
 
     /// choose a concrete type for an `any` position
     pub fn any_concrete(&mut self) -> Ty {
+        if self.no_numbers {
+            return match self.tape.weighted(&[5, 3, 3, 2]) {
+                0 => Ty::Str,
+                1 => Ty::Bool,
+                2 => Ty::Nul,
+                _ => Ty::Arr(Box::new(Ty::Str)),
+            };
+        }
         match self.tape.weighted(&[5, 5, 3, 3, 2, 2, 1]) {
             0 => Ty::Num,
             1 => Ty::Str,
@@ -171,6 +179,15 @@ impl<'t, 'a, 'g> Gen<'t, 'a, 'g> {
         if depth == 0 {
             return self.leaf(ty);
         }
+        if self.cfg.ts_slots && self.tape.chance(1, 6) {
+            // decoration slot around an expression: `(<T>e)`, `(e as T)`, `(e satisfies T)`, `(e)!`
+            let inner = self.expr_inner(ty, depth);
+            return format!("({}{}{}){}", self.mark('g', ty), inner, self.mark('a', ty), self.mark('b', ty));
+        }
+        self.expr_inner(ty, depth)
+    }
+
+    fn expr_inner(&mut self, ty: &Ty, depth: usize) -> String {
         match ty {
             Ty::Num => self.num_expr(depth),
             Ty::Str => self.str_expr(depth),
@@ -190,6 +207,9 @@ impl<'t, 'a, 'g> Gen<'t, 'a, 'g> {
             let want = ty.clone();
             if let Some(v) = self.pick_var(|t| *t == want || (want == Ty::Any && !matches!(t, Ty::Func(..) | Ty::GenOf(_)))) {
                 self.tag("expr:var");
+                if self.cfg.ts_slots {
+                    return format!("{}{}", v.name, self.mark('b', ty));
+                }
                 return v.name;
             }
         }
@@ -891,6 +911,11 @@ impl<'t, 'a, 'g> Gen<'t, 'a, 'g> {
         }
         let mut args = vec![];
         let mut argtags = vec![];
+        // JSON.stringify prints numbers through another printer (open finding C15-json-number-notation)
+        let saved_no_numbers = self.no_numbers;
+        if fq == "JSON.stringify" && self.gated("C15:json-number-notation") {
+            self.no_numbers = true;
+        }
         for a in e.args {
             match self.lib_arg(*a, &recv_elem, depth) {
                 Some((s, t)) => {
@@ -903,9 +928,13 @@ impl<'t, 'a, 'g> Gen<'t, 'a, 'g> {
                         argtags.push(t);
                     }
                 }
-                None => return None,
+                None => {
+                    self.no_numbers = saved_no_numbers;
+                    return None;
+                }
             }
         }
+        self.no_numbers = saved_no_numbers;
         for t in &argtags {
             // gates can name one argument class of one entry, e.g. "lib-String.prototype.replaceAll×regex-g"
             if self.gated(&format!("lib-{}×{}", fq, t)) {
